@@ -481,6 +481,7 @@ func c10Prop() *fw.Prop {
 			}
 			for _, sys := range []string{"r1cs", "scs"} {
 				cs = append(cs, fw.Case{ID: "solver/" + sys, Kind: "solver", P: map[string]any{"sys": sys}})
+				cs = append(cs, fw.Case{ID: "compiled/" + sys, Kind: "compiled", P: map[string]any{"sys": sys}})
 			}
 			nsq := 4
 			if !ctx.Quick {
@@ -718,6 +719,81 @@ func c10Prop() *fw.Prop {
 					}
 				}
 				o.Inc("injectivity_pairs_checked")
+			case "compiled":
+				// the hash functions on really compiled systems (builders may update a MulAcc
+				// operand in place): permutation, sponge with one variable in several positions
+				// and with a computed first element, hashing the same leaf twice, two-to-one
+				// compression chained on one chip, the short-input shortcut. in = [a,b,c,s,t,w0..w3]
+				sys := c.Str("sys")
+				fn := func(api frontend.API, in []frontend.Variable) []frontend.Variable {
+					chip := poseidon.NewBN254Chip(api)
+					a, b, cc := gl.NewVariable(in[0]), gl.NewVariable(in[1]), gl.NewVariable(in[2])
+					x := gl.NewVariable(api.MulAcc(api.Mul(in[3], 1), in[3], in[4])) // s + s*t, spare capacity
+					perm := chip.Poseidon(poseidon.BN254State{in[5], in[6], in[7], in[8]})
+					out := append([]frontend.Variable{}, perm[:]...)
+					out = append(out, chip.HashNoPad([]gl.Variable{a, a, b, a, cc, b, b}))
+					out = append(out, chip.HashNoPad([]gl.Variable{x, a, b, cc}))
+					out = append(out, chip.HashNoPad([]gl.Variable{x, a, b, cc}))
+					out = append(out, chip.HashNoPad([]gl.Variable{b, x, a, a, x, x, cc, cc, a, b}))
+					t1 := chip.TwoToOne(perm[0], perm[1])
+					t2 := chip.TwoToOne(t1, perm[2])
+					t3 := chip.TwoToOne(perm[3], t2)
+					out = append(out, t1, t2, t3)
+					out = append(out, chip.HashOrNoop([]gl.Variable{a}), chip.HashOrNoop([]gl.Variable{a, a}), chip.HashOrNoop([]gl.Variable{x, a, x}), chip.HashOrNoop([]gl.Variable{a, b, cc, x}))
+					out = append(out, chip.HashNoPad([]gl.Variable{a, b, cc})) // a, b, c must still be themselves
+					return out
+				}
+				comp, err := gadget.Compile(sys, fn, 9, 16, gadget.PadCommit, nil)
+				if err != nil {
+					return fw.Inconcl("compile: " + err.Error())
+				}
+				n := 4
+				if !ctx.Quick {
+					n = 40
+				}
+				for k := 0; k < n; k++ {
+					a, b, cc := randGL(r), randGL(r), randGL(r)
+					sv, tv := uint64(r.Intn(1<<16)), uint64(r.Intn(1<<16))
+					x := sv + sv*tv
+					st := c10BNState(r, k%5)
+					in := []*big.Int{bu(a), bu(b), bu(cc), bu(sv), bu(tv), frBig(st[0]), frBig(st[1]), frBig(st[2]), frBig(st[3])}
+					perm := ref.BNPermute(st)
+					t1 := ref.BNTwoToOne(perm[0], perm[1])
+					t2 := ref.BNTwoToOne(t1, perm[2])
+					t3 := ref.BNTwoToOne(perm[3], t2)
+					h2 := ref.BNHashNoPad([]ref.F{x, a, b, cc})
+					want := []fr.Element{perm[0], perm[1], perm[2], perm[3],
+						ref.BNHashNoPad([]ref.F{a, a, b, a, cc, b, b}), h2, h2, ref.BNHashNoPad([]ref.F{b, x, a, a, x, x, cc, cc, a, b}),
+						t1, t2, t3,
+						ref.BNHashOrNoop([]ref.F{a}), ref.BNHashOrNoop([]ref.F{a, a}), ref.BNHashOrNoop([]ref.F{x, a, x}), ref.BNHashOrNoop([]ref.F{a, b, cc, x}),
+						ref.BNHashNoPad([]ref.F{a, b, cc})}
+					outs := make([]*big.Int, len(want))
+					for i := range want {
+						outs[i] = frBig(want[i])
+					}
+					// the engine must agree with the reference on the same gadget ...
+					got, res := gadget.EngineEval(engine.Options{Face: engine.Native}, fn, in)
+					if res.Verdict != engine.Accept {
+						return fw.Violate("bn254_hash_failed", resStr(res))
+					}
+					for i := range want {
+						if got[i].Cmp(outs[i]) != 0 {
+							return fw.Violate("wrong_bn254_output:shared_operands", fmt.Sprintf("output %d = %s, reference %s", i, got[i], outs[i]))
+						}
+					}
+					// ... and the compiled system must accept exactly the reference values
+					if err := comp.Solve(in, outs); err != nil {
+						return fw.Violate("compiled_system_rejects_reference_hashes:"+sys, fmt.Sprintf("a=%d b=%d c=%d x=%d: %s", a, b, cc, x, trunc(err.Error(), 160)))
+					}
+					bad := append([]*big.Int(nil), outs...)
+					bad[k%len(bad)] = new(big.Int).Add(bad[k%len(bad)], big.NewInt(1))
+					if err := comp.Solve(in, bad); err == nil {
+						return fw.Violate("solver_accepts_wrong_hash:"+sys, fmt.Sprintf("output %d", k%len(bad)))
+					}
+					o.Inc("compiled_hash_agreements_" + sys)
+					o.Events += events(res) + 2
+				}
+				o.Sample = map[string]any{"system": sys, "constraints": comp.CS.GetNbConstraints()}
 			case "solver":
 				sys := c.Str("sys")
 				cc, err := gadget.Compile(sys, toVecGadget, 1, 5, gadget.PadCommit, nil)
